@@ -164,7 +164,30 @@ def lemma_L2a():
     return {"name": "lemma.L2a (EZ = exists separating layer)", "status": st, "parts": r1["parts"] + r2["parts"], "seconds": r1["seconds"] + r2["seconds"]}
 
 
+def lemma_RangeList():
+    from contracts.c_diagnostics import RangeList
+    from pyvc.logic import Forall
+
+    s_, n, i = z3.Ints("s_rl n_rl i_rl")
+    ex = ["lemma.RangeList.len", "lemma.RangeList.at"]
+    len_claim = lambda k: LInt.len(RangeList(s_, k)) == z3.If(k <= 0, 0, k)
+    r1 = _prove("lemma.RangeList.len", [("base", [n <= 0], len_claim(n), []), ("step", [n >= 0, len_claim(n)], len_claim(n + 1), [])], exclude=ex)
+    # i is an arbitrary but fixed index: the step only needs the hypothesis for the same i
+    at_claim = lambda k: z3.Implies(z3.And(0 <= i, i < k), LInt.at(RangeList(s_, k), i) == s_ + i)
+    r2 = _prove(
+        "lemma.RangeList.at",
+        [
+            ("base", [n <= 0], at_claim(n), []),
+            ("step", [n >= 0, at_claim(n), len_claim(n)], at_claim(n + 1), [LInt.at(LInt.snoc(RangeList(s_, n), s_ + n), i)]),
+        ],
+        exclude=ex,
+    )
+    st = "proved" if r1["status"] == r2["status"] == "proved" else "failed"
+    return {"name": "lemma.RangeList (len, at)", "status": st, "parts": r1["parts"] + r2["parts"], "seconds": r1["seconds"] + r2["seconds"]}
+
+
 LEMMAS = {
+    "RangeList": lemma_RangeList,
     "L2a": lemma_L2a,
     "lenGLs": lambda: lemma_lenGLs(PS, LCnd, LLCnd, (), ""),
     "lenGLsk": lambda: lemma_lenGLs(PSK, LInt, LLInt, (z3.Const("val_l", z3.ArraySort(L.Int, L.Cnd)),), "k"),
